@@ -4,5 +4,6 @@ CONSTANTS
   Key = {"k1", "k2"}
   Hash = {"h1", "h2"}
   Mangle = {"none", "flipbit", "truncate", "empty", "othersig"}
+  Way = {"set", "scheme", "copy", "decode", "assign"}
 INVARIANT GPrint
 CHECK_DEADLOCK FALSE
